@@ -1390,7 +1390,7 @@ func runE3(p *Prog, r *Report) {
 				r.Add("E3.public-mutator", funcName(f), key, p.Pos(fn.Decl), Excepted, ex, true)
 				continue
 			}
-			if fn.Decl.Recv != nil && (f.Name() == "Swap" || f.Name() == "Less" || f.Name() == "Len") {
+			if fn.Decl.Recv != nil && (fname(f) == "Swap" || fname(f) == "Less" || fname(f) == "Len") {
 				r.Add("E3.public-mutator", funcName(f), key, p.Pos(fn.Decl), Excepted, "sort.Interface method: reached only through sort.* on a slice the caller owns (the sort call itself is judged as a write)", true)
 				continue
 			}
